@@ -143,8 +143,27 @@ func runReadChunk(k IOCase) string {
 		if s1 != s2 {
 			return "a traversal that skips containers and leaves them early differs from the one-piece read: " + firstDiff(s1, s2)
 		}
+		if len(k.Chunks) == 0 {
+			// sources that can (or claim to) seek: a bytes.Reader, and a pipe-like source whose Seek fails
+			if s3 := skimFmt(bytes.NewReader(data)); s3 != s1 {
+				return "the skipping traversal over a seekable source differs: " + firstDiff(s1, s3)
+			}
+			if s4 := skimFmt(seekFailReader{&chunkReader{data: data, failAt: -1}}); s4 != s1 {
+				return "the skipping traversal over a source whose Seek fails (a pipe) differs: " + firstDiff(s1, s4)
+			}
+			if s5 := skimFmt(seekFailReader{&chunkReader{data: data, chunks: []int{4096, 1, 700}, failAt: -1}}); s5 != s1 {
+				return "the skipping traversal over a chunked source whose Seek fails differs: " + firstDiff(s1, s5)
+			}
+		}
 	}
 	return ""
+}
+
+// seekFailReader looks like an *os.File on a pipe: it has a Seek method, which fails.
+type seekFailReader struct{ *chunkReader }
+
+func (s seekFailReader) Seek(offset int64, whence int) (int64, error) {
+	return 0, errors.New("seek: illegal seek")
 }
 
 // skimFmt navigates without reading everything: containers are alternately skipped and left after
@@ -401,6 +420,14 @@ func runC19(c *Ctx) {
 			if n > 1000 && len(vals) > 8 {
 				vals = vals[len(vals)-6:]
 			}
+			if i == 21 || (c.Thorough() && i%300 == 21) {
+				// one container longer than any reader buffer, skipped and left early by the skimming traversal
+				big := model.ListV()
+				for j := 0; j < 180; j++ {
+					big.Kids = append(big.Kids, model.StrV(fmt.Sprintf("element %03d of a list that is longer than a buffer", j)))
+				}
+				vals = []*model.Value{model.Int64V(1), big, model.Int64V(42), model.StructV(big.Clone().WithField(model.T("f")), model.Int64V(2).WithField(model.T("g"))), model.StrV("end")}
+			}
 		}
 		c.JournalCase(w, fmt.Sprintf("io case_seed=%d", cs))
 		// ---------- readers ----------
@@ -422,7 +449,15 @@ func runC19(c *Ctx) {
 			}
 			r := rand.New(rand.NewSource(cs))
 			// every single split point
+			// (documents of more than 3000 bytes: about 150 evenly spread positions plus the buffer sizes)
+			stride := 1
+			if len(data) > 3000 {
+				stride = len(data) / 150
+			}
 			for sp := 1; sp < len(data); sp++ {
+				if stride > 1 && sp%stride != 0 && sp != 4095 && sp != 4096 && sp != 4097 && sp != 8192 {
+					continue
+				}
 				k := IOCase{Kind: "read-chunk", InputHex: hx, Chunks: []int{sp, 1 << 20}, FailAt: -1}
 				c.Eval(1)
 				c.NonTrivial(fmt.Sprintf("chunk|%s|%d", hx, sp))
@@ -448,6 +483,9 @@ func runC19(c *Ctx) {
 			}
 			// read failure at every byte offset
 			for fa := 0; fa <= len(data); fa++ {
+				if stride > 1 && fa%stride != 0 && fa != len(data) && fa > 8 {
+					continue
+				}
 				chunks := []int(nil)
 				if fa%2 == 1 {
 					chunks = []int{1 + fa%5}
